@@ -14,6 +14,8 @@ import z3
 Z3_TIMEOUT_MS = int(os.environ.get('PYVC_Z3_TIMEOUT_MS', '20000'))
 CVC5_TIMEOUT_MS = int(os.environ.get('PYVC_CVC5_TIMEOUT_MS', '30000'))
 CVC5_BIN = '/usr/bin/cvc5'
+RLIMIT_PER_MS = float(os.environ.get('PYVC_RLIMIT_PER_MS', '5000'))
+WALL_FACTOR = float(os.environ.get('PYVC_WALL_FACTOR', '12'))
 
 
 def _symbols(e, acc, seen):
@@ -101,7 +103,10 @@ def _check_z3(job):
     t0 = time.time()
     try:
         s = z3.Solver()
-        s.set('timeout', timeout_ms)
+        # the budget is z3's deterministic resource counter (about 2-4 million units per second on an idle core), so that a
+        # verdict does not depend on how busy the machine is; the wall-clock timeout is only a generous backstop
+        s.set('rlimit', int(timeout_ms * RLIMIT_PER_MS))
+        s.set('timeout', int(timeout_ms * WALL_FACTOR))
         for k, v in opts.items():
             s.set(k, v)
         s.from_string(smt2)
